@@ -52,6 +52,16 @@ class T3Sim:
         self.reads = []       # block lists
         self.ncmd = 0         # commands after activation (everything but polling)
         self.limit_violation = None
+        # transient failure: the state-changing command with index `fail_at` is not executed; the tag answers
+        # with an error status ("status", once) or stays silent ("lost", as often as the reader retries)
+        self.fail_at = None
+        self.fail_mode = "status"
+        self.fail_left = 0
+        self.failed = 0
+
+    def inject_failure(self, k, mode):
+        self.fail_at, self.fail_mode = k, mode
+        self.fail_left = 1 if mode == "status" else 3
 
     @property
     def nblocks(self):
@@ -119,6 +129,12 @@ class T3Sim:
             if self.cut is not None and len(self.writes) >= self.cut:
                 self.dead = True
                 raise nfc.clf.TimeoutError
+            if self.fail_at is not None and len(self.writes) == self.fail_at and self.fail_left > 0:
+                self.fail_left -= 1
+                self.failed += 1
+                if self.fail_mode == "status":
+                    return bytearray([12, 9]) + IDM + b"\xFF\x70"
+                raise nfc.clf.TimeoutError
             for i, b in enumerate(bl):
                 self.mem[16 * b:16 * b + 16] = rest[16 * i:16 * i + 16]
             self.writes.append((list(bl), bytes(rest)))
@@ -159,6 +175,12 @@ class T4Sim:
         self.bn = 1
         self.rx = bytearray()
         self.txq = []
+        self.fail_at = None   # transient failure of one UPDATE BINARY: status 6581h, not executed
+        self.fail_left = 0
+        self.failed = 0
+
+    def inject_failure(self, k, mode="status"):
+        self.fail_at, self.fail_left = k, 1
 
     def target(self):
         return nfc.clf.RemoteTarget("106A", sens_res=bytearray(b"\x44\x03"), sel_res=bytearray(b"\x20"),
@@ -213,6 +235,10 @@ class T4Sim:
             if self.cut is not None and len(self.writes) >= self.cut:
                 self.dead = True
                 return None
+            if self.fail_at is not None and len(self.writes) == self.fail_at and self.fail_left > 0:
+                self.fail_left -= 1
+                self.failed += 1
+                return b"\x65\x81"
             self.file[off:off + lc] = d
             self.writes.append((self.sel, off, bytes(d)))
             return b"\x90\x00"
